@@ -119,14 +119,17 @@ func GoEnv() []string {
 	return append(env, "GOFLAGS=-mod=mod", "GOPROXY=off", "GOSUMDB=off", "GOTOOLCHAIN=local")
 }
 
-const goMod = `module drvpkg
+// repoPath is where the module under test lives: /repo, or $VERIF_REPO (a scratch copy while developing the harness).
+func repoPath() string {
+	if p := os.Getenv("VERIF_REPO"); p != "" {
+		return p
+	}
+	return "/repo"
+}
 
-go 1.21
-
-require github.com/200sc/bebop v0.0.0
-
-replace github.com/200sc/bebop => /repo
-`
+func goMod() string {
+	return "module drvpkg\n\ngo 1.21\n\nrequire github.com/200sc/bebop v0.0.0\n\nreplace github.com/200sc/bebop => " + repoPath() + "\n"
+}
 
 // Generate runs the real ReadFile + Generate in-process.
 func Generate(schemaText string, opts Options) (src []byte, stage string, err error) {
@@ -230,7 +233,7 @@ func (b *Builder) Build(id, schemaText string, env *schema.Env, opts Options) *P
 		"gen.go":      src,
 		"driver.go":   []byte(driver.Source),
 		"registry.go": []byte(driver.Registry(env, opts.Private, opts.Unsafe)),
-		"go.mod":      []byte(goMod),
+		"go.mod":      []byte(goMod()),
 	}
 	for name, data := range files {
 		if err := os.WriteFile(filepath.Join(p.Dir, name), data, 0o644); err != nil {
